@@ -69,7 +69,7 @@ pub struct Plan {
 
 fn env_noise(rng: &mut Rng) -> Vec<(String, String)> {
     let mut env = vec![];
-    let cands: [(&str, &[&str]); 22] = [
+    let cands: [(&str, &[&str]); 24] = [
         ("SOURCE_DATE_EPOCH", &["0", "1700000000", "4102444800"]),
         ("LANG", &["C", "en_US.UTF-8", "tr_TR.UTF-8", "ja_JP.eucJP"]),
         ("LC_ALL", &["C", "POSIX", "de_DE.UTF-8"]),
@@ -92,6 +92,8 @@ fn env_noise(rng: &mut Rng) -> Vec<(String, String)> {
         ("HOSTNAME", &["ci-1", "laptop"]),
         ("CI", &["true", "1"]),
         ("VERIF_CWD", &["cwd", "cwd-b", "ws/a"]),
+        ("VERIF_EXE_NAME", &["rustc", "rust-analyzer-proc-macro-srv", "clippy-driver"]),
+        ("VERIF_ARGV", &["--crate-name a --edition 2021", "--crate-name zzz -C metadata=0123abcd --cfg test", "-C opt-level=3"]),
     ];
     for (k, vs) in cands {
         if rng.chance(1, 2) {
@@ -114,13 +116,15 @@ fn swarm(rng: &mut Rng, thorough: bool) -> Cfg {
     let on = |rng: &mut Rng| rng.chance(7, 10);
     // "proc-macro server" runs: one long-lived process and worker, many distinct inputs, a long
     // history — state that only builds up over dozens of expansions (bounded caches, interners)
-    if rng.chance(2, 25) {
+    // thorough only, one run in 500: a process that lives for thousands of expansions
+    let marathon = thorough && rng.chance(1, 500);
+    if marathon || rng.chance(2, 25) {
         return Cfg {
             n_targets: rng.range(2, 6) as usize,
             n_polluters: rng.range(15, 40) as usize,
             n_procs: 1,
             workers_per_proc: rng.range(1, 2) as usize,
-            steps: if thorough { rng.range(100, 400) } else { rng.range(80, 200) } as usize,
+            steps: if marathon { rng.range(2000, 5000) } else if thorough { rng.range(100, 400) } else { rng.range(80, 200) } as usize,
             entropy_mode: if rng.chance(1, 2) { 1 } else { 0 },
             worker_restart: false,
             process_restart: false,
